@@ -82,6 +82,12 @@ CHECKS = {
         technique=SYMEX,
         ref="4 C07",
     ),
+    "C02": dict(
+        text="Bounded: one importing file whose source is assembled per path and parsed by the real ast.parse, with a main import statement of 19 forms (plain, aliased, multi-name, from-name, from-submodule, parenthesised, star, from-root, relative levels 1-3, inside __init__, written relative to module_path's parent) at every statement-list position the running interpreter's ast grammar offers (22 slots enumerated from the node classes' signatures; all depth-1 positions x all forms, depth-2 all (thorough) / sampled (quick), seeded depth-3) plus two more statements; symbolic: presence of each statement and, for 5 candidate names, whether it is a scanned module (closed under parents). The edges of the real ImportConverter + NetworkxGraph equal the per-statement naming rule, both inclusions (z3 query 'exists presence, module set: mismatch' over the decision-tree summary). One sampled assignment per instance and every model are written as real files and scanned by get_evaluable_architecture. CrossHair kernels: relative-import resolution (names <= 7, level <= 3), parent-module enumeration, root-prefix adjustment: Confirmed over all paths.",
+        note="Trusted: ast.parse (C), CrossHair/z3. The conv instances read every bit when the text and the module set are assembled (exhaustive walk, degenerate). Imports of the importing file's own ancestors are don't-care. Dynamic imports and TYPE_CHECKING conventions are outside. A statement-list slot of the interpreter's grammar without a source template is a harness error, not a skip.",
+        technique=SYMEX + "; " + XH,
+        ref="4 C02",
+    ),
 }
 
 NOT_YET = {}
